@@ -9,7 +9,7 @@
 From Coq Require Import String List ZArith NArith Bool.
 Import ListNotations.
 From Selfies Require Import Base Generated Atoms Grammar Decoder PySet Matching Smiles Kekulize Encoder
-  IndexSpec IndexCode Reader RoundTrip EncoderFacts PureFacts EncArom EncMatch.
+  IndexSpec IndexCode Reader RoundTrip EncoderFacts PureFacts EncArom EncMatch EncKeep.
 Local Open Scope string_scope.
 
 Definition C05_matching_sound_statement : Prop :=
@@ -54,6 +54,17 @@ Theorem C05_returned_matching_covers_along_edges_partial : forall g mt, find_per
   forall i, (i < length mt)%nat -> exists j, nth_error mt i = Some (Some j).
 Proof. exact perfect_matching_valid. Qed.
 
+(* "the sigma skeleton ... unchanged": kekulize leaves every slot of every adjacency row in place and changes nothing of
+   an edge but its order (first conjunct: the graphs agree once orders are erased); and the only orders it changes are
+   those of aromatic bonds (1.5, i.e. 3 half units), which become single or double (second conjunct) *)
+Theorem C05_kekulize_changes_only_aromatic_bond_orders : forall smiles attributable m0 m1,
+  smiles_to_mol smiles attributable = Ok m0 -> kekulize m0 = Ok (Some m1) ->
+  map (map (option_map (fun e => with_order2 e 0))) (m_adj m1) = map (map (option_map (fun e => with_order2 e 0))) (m_adj m0) /\
+  forall j row' e', nth_error (m_adj m1) j = Some row' -> In (Some e') row' ->
+    exists row0 e0, nth_error (m_adj m0) j = Some row0 /\ In (Some e0) row0 /\ e_dst e' = e_dst e0 /\
+      (e_order2 e' = e_order2 e0 \/ (e_order2 e0 = 3 /\ (e_order2 e' = 2 \/ e_order2 e' = 4)))%Z.
+Proof. exact parsed_kekulize_keeps. Qed.
+
 Example C05_kekulize_example :
   match smiles_to_mol (lit "c1ccc2[nH]ccc2c1") false with
   | Ok m0 => existsb (fun p => a_aromatic (fst p)) (m_atoms m0) &&
@@ -67,3 +78,4 @@ Print Assumptions C05_statement_refuted.
 Print Assumptions C05_checker_sound.
 Print Assumptions C05_kekulize_clears_every_aromatic_atom.
 Print Assumptions C05_returned_matching_covers_along_edges_partial.
+Print Assumptions C05_kekulize_changes_only_aromatic_bond_orders.
